@@ -6,46 +6,46 @@ HOOK_COMMITS = ["2d93e58", "7eef3a9"]  # filled in as hook commits are made in /
 
 CHECKS = {
  "C19": dict(cat="exploration", technique="runtime lockstep differential monitor (memoized vs plain store), deterministic scheduler at build-tag guarded yield hooks enumerating writer/reader interleavings by re-execution, and porcupine-checked stress histories under the race detector",
-   text="Sampled lockstep histories (hundreds to thousands) with every kind of lookup option incl. Offset and 1-3 handles; hook-level schedules of one writer and one reader enumerated completely (35 per program), writer + two readers sampled in quick and complete in thorough (11550 per program); race-instrumented stress checked for linearizability.",
+   text="Sampled lockstep histories (hundreds to thousands) with every kind of lookup option incl. Offset and 1-3 handles; hook-level schedules of one writer and one reader enumerated completely (35 per program), writer + two readers sampled in quick and complete in thorough (11550 per program); race-instrumented stress checked for linearizability. Plus: key confusion (no write, every method x same identifiers in different roles x 26 option values, three shuffled passes, two handles), steered schedules checked with porcupine incl. readers with two reads, a handle race (first handles obtained at the same moment), store-level operations and mid-history handles in lockstep.",
    note="Hooks: memoization.VerifYield at five points outside graphMemoizer.mu (tag verif). Schedules are complete only at the granularity of these hook points.", ref="DESIGN.md §5 C19, Appendix D"),
  "C07": dict(cat="exploration", technique="runtime monitoring of concurrent executions: client-boundary invoke/response histories checked offline with porcupine against a bitmask set model, Go race detector on the same workloads, shared-options snapshots, channel-closed observation, all-blocked/hard watchdog",
-   text="Sampled schedules: hundreds (quick) to thousands (thorough) of short histories (6-10 clients x 4-6 operations) on one graph and on the store's graph registry, under GOMAXPROCS 2/4/16 with yield hooks in AddTriples/RemoveTriples; concurrent BQL statements through the planner; a drain+Exist+writer probe; everything repeated under -race.",
+   text="Sampled schedules: hundreds (quick) to thousands (thorough) of short histories (6-10 clients x 4-6 operations) on one graph and on the store's graph registry, under GOMAXPROCS 2/4/16 with yield hooks in AddTriples/RemoveTriples; concurrent BQL statements through the planner; a drain+Exist+writer probe; everything repeated under -race. An error-paths phase calls every lookup with rejected and valid option values (direct and memoized) synchronously on a large channel and observes the channel state after return (open / closed / second close).",
    note="Schedules are sampled, not enumerated; porcupine timeouts (30 s) are inconclusive; RemoveTriples is modelled as k single removals sharing the call interval, AddTriples as atomic.", ref="DESIGN.md §5 C07, Appendix C"),
  "C20": dict(cat="fault_enumeration", technique="runtime fault injection through a pure storage.Store/Graph implementation: per statement every observed driver call position x failure mode is executed while monitors watch Execute's return values, completion and surviving goroutines; race detector on the same workload",
-   text="Complete over (call position x mode) for each statement of the corpus (28 hand-picked statements covering every driver entry point, + generated ones; ~2 k runs quick, ~30 k thorough), directly and with the memoizer stacked between planner and failing store.",
+   text="Complete over (call position x mode) for each statement of the corpus (28 hand-picked statements covering every driver entry point, + generated ones; ~2 k runs quick, ~30 k thorough), directly and with the memoizer stacked between planner and failing store. Lookup faults include a late-return mode (channel closed, error returned some time later).",
    note="A planned fault that does not fire (call order varies with scheduling / caching) is inconclusive, counted, never a pass; the wrapper is a well-formed driver (closes its channel once, then returns the error).", ref="DESIGN.md §5 C20"),
  "C04": dict(cat="exploration", technique="runtime reference-model monitor over statement sequences: every graph listed before and after each statement and compared with the statement's stated effect (union / difference / per-row template instantiation, structural reification check, untouched graphs unchanged, rejected statements change nothing)",
-   text="Sampled: 640 (quick) to 8000 (thorough) sequences of 10-25 statements of all data and graph kinds with duplicates, overlaps, several targets, bulk sizes 1/3/1000, reification and statements rejected before execution.",
+   text="Sampled: 640 (quick) to 8000 (thorough) sequences of 10-25 statements of all data and graph kinds with duplicates, overlaps, several targets, bulk sizes 1/3/1000, reification and statements rejected before execution. After removing statements the compound-index lookups of every listed triple are compared with the listing.",
    note="CONSTRUCT rows come from the C03 reference evaluator and are cross-checked against the real SELECT (disagreement => inconclusive, counted); explicit blank nodes are excluded (two admissible readings); one known finding (WHERE without bindings).", ref="DESIGN.md §5 C04, Appendix A"),
  "C14": dict(cat="exploration", technique="runtime metamorphic monitor: multisets of canonical rows of variants of one query (renamed bindings, chanSize, GOMAXPROCS, repeated runs, data partitioned over FROM graphs, clause permutations, data supersets, total ORDER BY repeated 20x) must agree; race detector on the parallel variants",
-   text="Sampled: ~1 k (quick) to ~10 k (thorough) base queries x 12-35 variants each, over sparse and dense data; a race-instrumented sample of the same workload.",
+   text="Sampled: ~1 k (quick) to ~10 k (thorough) base queries x 12-35 variants each, over sparse and dense data; a race-instrumented sample of the same workload. The total-order sequence is compared across plans (clause orders, partitioned data, GOMAXPROCS); ~20 read-only statements are executed alone and then all at once (plain and -race); patterns over thousands of rows are executed on 1 and 16 processors.",
    note="No reference model involved; equality of rows is accessor-based canonical equality; the sequence check only applies when every output column holds one kind of value.", ref="DESIGN.md §5 C14"),
  "C13": dict(cat="exploration", technique="runtime metamorphic monitor: rows of the query with HAVING compared with a typed reference filter of the rows the real engine returns without it",
-   text="Sampled: 3.8 k (quick) to 48 k (thorough) base-query x expression pairs; expressions of every accepted form up to nesting 4 over operands of every kind, including constants of another kind than the column and aggregate outputs after GROUP BY.",
+   text="Sampled: 3.8 k (quick) to 48 k (thorough) base-query x expression pairs; expressions of every accepted form up to nesting 4 over operands of every kind, including constants of another kind than the column and aggregate outputs after GROUP BY. Aggregate outputs may be named like their input binding.",
    note="Order comparisons are generated for numbers, times and text only; errors are accepted only for kind-mismatched comparisons; forms the expression builder rejects at parse time are counted, not judged.", ref="DESIGN.md §5 C13"),
  "C12": dict(cat="exploration", technique="runtime metamorphic monitor: the same query with and without ORDER BY / LIMIT run through the real engine; sortedness, permutation, prefix and rejection oracles on the observed row sequences",
-   text="Sampled: 2.5 k (quick) to 40 k (thorough) base queries x ORDER BY lists x LIMIT values (valid and invalid) over dense data with negative/fractional numbers and anchors in two zones, incl. plain single-clause queries (limit push-down) and row-dropping clauses.",
+   text="Sampled: 2.5 k (quick) to 40 k (thorough) base queries x ORDER BY lists x LIMIT values (valid and invalid) over dense data with negative/fractional numbers and anchors in two zones, incl. plain single-clause queries (limit push-down) and row-dropping clauses. Also combined with HAVING, bindings repeated through aliases, anchors outside the int64-nanosecond range and single-kind numeric columns incl. both ends of the int64 range.",
    note="Columns mixing kinds carry no ordering requirement; the exclusion check is skipped when a key column shows one value under two spellings (counted).", ref="DESIGN.md §5 C12"),
  "C11": dict(cat="exploration", technique="runtime metamorphic monitor: the grouped query's table is compared with a reference grouping of the rows the real engine returns for the same pattern without GROUP BY",
-   text="Sampled: 2.5 k (quick) to 32 k (thorough) aggregate queries over dense numeric data: 1-2 grouping bindings or aliases, mixed-kind key columns, count / count(distinct) / sum in any mix and order, empty patterns.",
+   text="Sampled: 2.5 k (quick) to 32 k (thorough) aggregate queries over dense numeric data: 1-2 grouping bindings or aliases, mixed-kind key columns, count / count(distinct) / sum in any mix and order, empty patterns. The grouped query is repeated with LIMIT n (min(n, groups) unchanged group rows).",
    note="Decoupled from C03: the input of the reference grouping is the engine's own ungrouped result; sums compared exactly for int64, with a relative tolerance for float64.", ref="DESIGN.md §5 C11"),
  "C10": dict(cat="exploration", technique="runtime reference-model monitor (left-outer-join evaluator) plus a reference-free metamorphic monitor (projection on the mandatory bindings == query without its OPTIONAL clauses) on generated statements run through the real pipeline",
    text="Sampled: 2.5 k (quick) to 40 k (thorough) patterns with 1-3 OPTIONAL clauses after 1-2 mandatory ones over random sparse and dense data; sharing 0-2 bindings, fully specified, inapplicable extractions, clauses matching nothing.",
    note="Trusted: Appendix A left-join semantics in bq.Solve; extraction bindings inside OPTIONAL clauses are fresh; cases with more than 1500 reference solutions are skipped and counted.", ref="DESIGN.md §5 C10"),
  "C08": dict(cat="exploration", technique="runtime process monitors around the real statement pipeline: journaling worker processes (crash attribution), recover(), goroutine-leak snapshots, all-blocked/hard watchdog, table-xor-error, race detector on a sample",
-   text="Complete for token sequences up to length 2 (quick) / 3 (thorough) rendered to text; sampled generated statements of all eight kinds, their mutations, random bytes/UTF-8/keyword salad, against empty, populated and memoized stores.",
+   text="Complete for token sequences up to length 2 (quick) / 3 (thorough) rendered to text; sampled generated statements of all eight kinds, their mutations, random bytes/UTF-8/keyword salad, against empty, populated and memoized stores. Plus statements that fail only while rows are processed (aggregates over mixed-kind columns, one ill-kinded template slot, bindings left NULL by OPTIONAL reused everywhere), every token-boundary prefix of generated statements, and several statements in one text.",
    note="Termination is bounded progress (watchdog); leak = goroutine created by badwolf code after the pre-call snapshot that is still alive (blocked) after the call returned.", ref="DESIGN.md §5 C08"),
  "C03": dict(cat="exploration", technique="runtime reference-model monitor: generated SELECT statements run through the real lexer/parser/planner/Execute and compared row by row with a naive nested-loop evaluator of the pattern",
-   text="Complete for the one-clause shape space in thorough (sampled to <=1 extraction in quick) and for all two-clause combinations of a reduced shape set in thorough; sampled random 2-4 clause patterns with bounds, several graphs and aliases; held on the statements generated, not on all programs.",
+   text="Complete for the one-clause shape space in thorough (sampled to <=1 extraction in quick) and for all two-clause combinations of a reduced shape set in thorough; sampled random 2-4 clause patterns with bounds, several graphs and aliases; held on the statements generated, not on all programs. Random patterns include bounds whose limits are time bindings of earlier clauses; every statement also runs on one long-lived memoizing store per data set; data is loaded through an insert-and-delete history.",
    note="Trusted: the ~250-line reference evaluator (bq.Match/Solve) implementing DESIGN.md Appendix A, canonical cell projection; cases run in worker processes so an engine-goroutine panic is attributed.", ref="DESIGN.md §5 C03, Appendix A"),
  "C18": dict(cat="exploration", technique="runtime differential monitor: real Parser.Parse vs an independent interpreter of the exported grammar table (explicit end of input) on the kinds the real lexer emits; accessor-level meaning fingerprints on reused vs fresh parsers",
-   text="Complete for all token sequences up to length 3 (quick) / 4 (thorough, 9.3 M) over the 55 token kinds; sampled grammar-derived sentences and single-token mutations; sampled statement histories on one Parser instance with accepted, truncated-at-every-token and token-replaced earlier statements.",
+   text="Complete for all token sequences up to length 3 (quick) / 4 (thorough, 9.3 M) over the 55 token kinds; sampled grammar-derived sentences and single-token mutations; sampled statement histories on one Parser instance with accepted, truncated-at-every-token and token-replaced earlier statements. Accepted sentences are also followed by tails the lexer cannot read; eight goroutines with their own parsers parse the targets at the same time (plain and -race); targets include lists that repeat a name and generated statements.",
    note="Trusted: the reference recogniser (gram.Recognize) and the fingerprint's coverage of exported accessors; unrealisable kind sequences are skipped.", ref="DESIGN.md §5 C18"),
  "C16": dict(cat="exploration", technique="runtime monitor on the real lexer's token stream (termination watchdog, end-token rule, substring embedding, capacity independence, metamorphic case/whitespace variants, printed-value tokens, goroutine-leak snapshot)",
-   text="Complete for all strings up to length 3 (quick) / 4 (thorough) over a 25-character alphabet at four channel capacities; sampled grammar-derived statements, mutations, random UTF-8/invalid bytes and printed values.",
+   text="Complete for all strings up to length 3 (quick) / 4 (thorough) over a 25-character alphabet at four channel capacities; sampled grammar-derived statements, mutations, random UTF-8/invalid bytes and printed values. Shape rules are applied to every case/whitespace variant; printed literals are also lexed with their type name in another letter case.",
    note="Trusted: greedy leftmost embedding decides substring order; whitespace variants only alter whitespace between two token texts; one known finding (printed literal ending in a backslash).", ref="DESIGN.md §5 C16"),
  "C01": dict(cat="exploration", technique="runtime reference-model monitor: a map name->set(canonical triple) driven in lockstep with the real store, every observable compared after every step; small universes enumerated completely",
-   text="Complete for three 4-triple universes (every subset by two paths x every single add/remove batch); sampled random histories (hundreds to thousands) over three graph names and a 12-triple universe with duplicates, overlaps, respelled zones and empty batches, observed after every step.",
+   text="Complete for three 4-triple universes (every subset by two paths x every single add/remove batch); sampled random histories (hundreds to thousands) over three graph names and a 12-triple universe with duplicates, overlaps, respelled zones and empty batches, observed after every step. A neighbours phase probes ~7 k pairs of triples that differ in one component by a small change (one bit of an int64/float64, adjacent floats, trailing byte of text/blob/id, anchors 2^k ns apart, one rune of a node type/id).",
    note="Trusted: the 30-line model and the canonical projection; three UUID-collision classes are known findings shared with C06.", ref="DESIGN.md §5 C01"),
  "C02": dict(cat="exploration", technique="runtime reference-model monitor: every lookup with every choice of fixed components after every step of random histories, compared with the filtered model and with a scan of Graph.Triples",
    text="Sampled histories; per step all ten lookups x all argument combinations from stored and never-stored values (both predicate kinds, every anchor, another zone): 0.5 M (quick) to 25 M (thorough) lookup calls compared as multisets.",
@@ -54,7 +54,7 @@ CHECKS = {
    text="Sampled graphs x all methods x arguments x the option grid (800 window/filter/LatestAnchor combinations, 14 paging pairs; complete grid in thorough): selection compared with the Appendix B pipeline, pages with blocks of the unpaged result, partition law directly, options value unchanged, channel closed on error.",
    note="Trusted: the 60-line reference pipeline (ref.Select); graph content known by construction.", ref="DESIGN.md §5 C09"),
  "C06": dict(cat="exploration", technique="runtime monitor grouping generated adversarial value corpora by UUID and by accessor-based canonical identity; race detector on concurrent recomputation; digests compared across child processes",
-   text="Sampled adversarial corpora (thousands of values per kind, all pairs decided by grouping), int64/float64 sweeps over every power of two and exponent plus random bit patterns, 16-goroutine recomputation under -race, 3 extra processes; three root causes are recorded as known findings and attributed by a syntactic class of the colliding pair.",
+   text="Sampled adversarial corpora (thousands of values per kind, all pairs decided by grouping), int64/float64 sweeps over every power of two and exponent plus random bit patterns, 16-goroutine recomputation under -race, 3 extra processes; three root causes are recorded as known findings and attributed by a syntactic class of the colliding pair. Predicate corpus includes id/anchor boundary shifts under three encoding hypotheses and anchors outside the int64-nanosecond range in several zones; every UUID is recomputed in reverse order.",
    note="Trusted: accessors and the canonical projection; 'every process' is observed on 4 processes; byte images are used for attribution of known findings only.", ref="DESIGN.md §5 C06"),
  "C05": dict(cat="exploration", technique="runtime round-trip monitor over generated hostile values and graphs (Parse(String(v)) compared through accessor-based canonical values; WriteGraph->ReadIntoGraph compared as canonical sets)",
    text="Sampled: tens of thousands (quick) to millions (thorough) of generated values inside the documented domain, biased to delimiter-like substrings, extreme numbers, zones and precisions, plus random graphs; held on what was generated, not on all inputs.",
@@ -63,7 +63,7 @@ CHECKS = {
    text="Complete for all strings up to length 4 (quick) / 6 (thorough) over a 15-character delimiter alphabet and for the template grid; sampled for mutations and random strings; the reader is checked against files with a malformed line at a random position.",
    note="Trusted: recover() sees every panic because the parsers start no goroutines; canonical projection for equality.", ref="DESIGN.md §5 C15"),
  "C17": dict(cat="exploration", technique="runtime invariant check of the live grammar tables + executed witness statements observed through ProcessStart probes in the real parser",
-   text="The grammar is a finite table: every rule and every pair of alternatives of grammar.BQL()/SemanticBQL() is inspected at run time, and for each of the alternatives a concrete statement is parsed by the real parser while probes record which alternative fired; complete for the table, sampled for contexts.",
+   text="The grammar is a finite table: every rule and every pair of alternatives of grammar.BQL()/SemanticBQL() is inspected at run time, and for each of the alternatives a concrete statement is parsed by the real parser while probes record which alternative fired; complete for the table, sampled for contexts. An alternative whose shortest witness is not lexically realisable is derived under every parent and grandparent occurrence of its rule before a random search.",
    note="Trusted: Element.Symbol()/Token() accessors, the harness's reference predictive recogniser (60 lines), the real lexer for rendering witnesses.", ref="DESIGN.md §5 C17"),
 }
 
